@@ -6,6 +6,7 @@ from . import base
 from .c07 import _sum_solver
 
 PROP = "C06"
+SOLVER = {'functions_encoded': ['emitted IC10 -> vf.ic10.Machine with shadow call stack', 'source -> vf.source.Interp']}
 HDR = base.witness.HDR
 
 ASSUMPTIONS = [
